@@ -72,6 +72,31 @@ def check(seed):
             except Exception as e: return "interaction sample predict_viability raised %r on a two-treatment screen" % (e,)
             if got.shape != (s.size,) or not np.allclose(got, ref, rtol=1e-9, atol=1e-12): return "interaction sample viability differs from the row-wise reference"
             if not np.allclose(it2.predict_viability(sw), got, rtol=1e-9, atol=1e-12): return "interaction sample viability changes when the treatment columns are swapped"
+            # purity over a history: prediction never mutates the sample (no attribute appears or changes), repeating it gives the same rows, and after the
+            # sample's parameters change (the lookup updated in place - the model shares its dictionary with the samples it exports -, then replaced, then W
+            # replaced) the prediction follows the CURRENT parameters, exactly as a freshly built sample with those parameters predicts
+            attrs = set(SparseDrugComboInteractionMCMCSample(W=t.W, V2=t.V2, precision=t.precision, single_effect_lookup=look).__dict__)  # attributes of a sample that never predicted
+            if set(it2.__dict__) != attrs or it2.single_effect_lookup is not look: return "interaction sample: prediction added / replaced attributes of the sample %r" % sorted(set(it2.__dict__) ^ attrs)
+            if not np.array_equal(it2.predict_viability(s), got): return "interaction sample: repeating the prediction changed it"
+            attrs0 = {k: copy.deepcopy(v) for k, v in it2.__dict__.items()}
+            it2.predict_viability(s); it2.predict_conditional_mean(s); it2.predict_conditional_variance(s)
+            if set(it2.__dict__) != set(attrs0): return "interaction sample: prediction added attributes %r to the sample" % sorted(set(it2.__dict__) - set(attrs0))
+            for k_, v_ in attrs0.items():
+                w_ = it2.__dict__[k_]
+                if (v_ != w_) if isinstance(v_, dict) else (not np.array_equal(np.asarray(v_), np.asarray(w_))): return "interaction sample: prediction mutated %s" % k_
+            for step in ("update", "replace", "W"):
+                if step == "update": look.update({k_: float(rng.uniform(0.05, 1.2)) for k_ in list(look) if k_[1] != -1})
+                elif step == "replace": it2.single_effect_lookup = {k_: (1.0 if k_[1] == -1 else float(rng.uniform(0.05, 1.2))) for k_ in look}
+                else: it2.W = rng.normal(size=t.W.shape)
+                fresh = SparseDrugComboInteractionMCMCSample(W=it2.W.copy(), V2=it2.V2.copy(), precision=it2.precision, single_effect_lookup=dict(it2.single_effect_lookup))
+                if not np.allclose(it2.predict_viability(s), fresh.predict_viability(s), rtol=1e-12, atol=1e-12):
+                    return "interaction sample: after its parameters changed (%s) the sample no longer predicts from its current parameters" % step
+            t2 = copy.deepcopy(t); t.predict_viability(s); t2.W0 = t2.W0 + 1.0; t2.V2 = rng.normal(size=t.V2.shape)
+            fresh = SparseDrugComboMCMCSample(W=t2.W.copy(), W0=t2.W0.copy(), V2=t2.V2.copy(), V1=t2.V1.copy(), V0=t2.V0.copy(), alpha=t2.alpha, precision=t2.precision)
+            t2m = t2.predict_conditional_mean(s); t2.alpha = t2.alpha + 0.5; fresh.alpha = t2.alpha
+            if not np.allclose(t2.predict_conditional_mean(s), fresh.predict_conditional_mean(s), rtol=1e-12, atol=1e-12) or np.allclose(t2m, t2.predict_conditional_mean(s)):
+                return "additive sample: after its parameters changed the sample no longer predicts from its current parameters"
+            if set(t.__dict__) != set(keep): return "prediction added attributes %r to the sample" % sorted(set(t.__dict__) - set(keep))
         h = ThetaHolder(3); ts = [theta(rng) for _ in range(3)]
         for x in ts: h.add_theta(x)
         allm = predict_mean_all(s, h)
